@@ -164,3 +164,32 @@ package services
 //@   ensures leader:    last(SvcLeader) ==> calls(AcmeQAddAfter) == 1
 //@   ensures nonleader: !last(SvcLeader) ==> calls(AcmeQAddAfter) == 0
 //@ end
+
+// ---------------------------------------------------------------------------
+// C10 — only gateways of this controller's GatewayClass are handed out
+
+//@ count GetGwClass = (*c).getGatewayClass
+//@ count IsValidGw  = (*c).IsValidGateway
+//@ count IsValidGwA2 = (*c).IsValidGatewayA2
+//@ count IsValidGwB1 = (*c).IsValidGatewayB1
+
+//@ func (*c).isValidGateway
+//@   props C10
+//@   requires cfg: c.config != nil
+//@   ensures class: result ==> calls(GetGwClass) == 1 && last(GetGwClass).1 == nil
+//@       && at(GetGwClass, last(GetGwClass).0.Spec.ControllerName == c.config.ControllerName)
+//@   at call getGatewayClass#1 assert own-class: $arg2 == gw.Spec.GatewayClassName
+//@ end
+
+//@ func (*c).GetGateway
+//@   props C10
+//@   ensures valid: result.1 == nil && result.0 != nil ==> calls(IsValidGw) == 1 && last(IsValidGw)
+//@ end
+//@ func (*c).GetGatewayB1
+//@   props C10
+//@   ensures valid: result.1 == nil && result.0 != nil ==> calls(IsValidGwB1) == 1 && last(IsValidGwB1)
+//@ end
+//@ func (*c).GetGatewayA2
+//@   props C10
+//@   ensures valid: result.1 == nil && result.0 != nil ==> calls(IsValidGwA2) == 1 && last(IsValidGwA2)
+//@ end
